@@ -37,6 +37,7 @@ class Sim:
 
     def __init__(self):
         self.s = {}
+        self.ctor = "new"      # "new_default" for histories on the C library allocator
 
     def live(self):
         return sorted(self.s)
@@ -148,7 +149,7 @@ class LinkedGen:
         if len(live) < 2:
             k = sim.free_slot()
             sim.s[k] = []
-            out.append(f"new o={k}" if k else "new")
+            out.append(f"{sim.ctor} o={k}" if k else sim.ctor)
             for _ in range(rng.choice([0, 1, 2, 3, 5])):
                 v = val(rng)
                 sim.s[k].append(v)
@@ -307,7 +308,14 @@ class LinkedGen:
     def one_history(self, rng, tier, focus):
         sim = Sim()
         sim.s[0] = []
-        ops = ["new_default" if focus in ("all", "refuse") and rng.random() < 0.04 else "new"]
+        # A history is either entirely on the harness allocator or entirely on the C library allocator
+        # (`new_default` for every slot, no `fail=`): cc_list_add_all / add_all_at / the slist twins
+        # allocate the copies with the *source* list's allocator (link_all_externally(list2, …)), so
+        # mixing a default and a configured list makes the destination release foreign blocks
+        # -> corpus/<k>/defect_add_all_foreign_allocator.ops; that situation is excluded here.
+        if focus in ("all", "refuse") and rng.random() < 0.04:
+            sim.ctor = "new_default"
+        ops = [sim.ctor]
         length = rng.randint(1, 50)
         allf = focus in ("all", "refuse")
         for _ in range(length):
@@ -315,7 +323,7 @@ class LinkedGen:
             if not live:
                 k = 0
                 sim.s[0] = []
-                ops.append("new")
+                ops.append(sim.ctor)
                 continue
             k = rng.choice(live) if rng.random() < 0.3 else live[0]
             r = rng.random()
@@ -341,7 +349,7 @@ class LinkedGen:
                     new = [f"to_array" + (f" o={k}" if k else "")]
             else:
                 new = [self.core_op(rng, sim, k, reject=(focus == "reject"), grow=(focus == "growth"))]
-            if focus == "refuse":
+            if focus == "refuse" and sim.ctor == "new":
                 new = [op + (f" fail={rng.choice([1, 1, 2, 3, 4, 6])}" if rng.random() < 0.15 and not op.startswith(("drop", "destroy")) else "")
                        for op in new]
             ops.extend(new)
